@@ -121,6 +121,12 @@ func c05Profiles(tier string) []Profile {
 	}
 	for _, sc := range c05Scenarios() {
 		ps = append(ps, sc.Profile(2))
+		if sc.Name == "S4-flush" {
+			r := *sc
+			r.Name, r.MapDesc = "S4-flush-maporder-desc", true
+			r.Desc += " (the library's maps iterate in descending key order)"
+			ps = append(ps, r.Profile(2))
+		}
 	}
 	for _, sc := range c05More() {
 		b := 1
